@@ -92,8 +92,19 @@ static ALLOC: Counting = Counting;
 /// context has moved on (`late_free`), and is then given to riti_string_free. Returns the mismatches.
 unsafe fn ffi_cycle_once(cfg: &Config, desc: &Value, env: &mut Env, mism: &mut Vec<String>, nstrings: &mut usize) -> Result<(), String> {
     let late = b(desc, "late_free", false);
+    // early_config_free: the caller frees its Config as soon as the call it was passed to has returned, and the freed block is reused
+    // (zero-filled blocks of the same size); every suggestion is then compared with a Rust-API context made from the same configuration
+    let early = b(desc, "early_config_free", false);
+    let mut refctx = if early { Some(RitiContext::new_with_config(cfg)) } else { None };
+    let mut junk: Vec<Vec<u64>> = Vec::new();
     let cfgp = Box::into_raw(Box::new(cfg.clone()));
     let ctx = riti_context_new_with_config(cfgp);
+    if early {
+        riti_config_free(cfgp);
+        for _ in 0..8 {
+            junk.push(vec![0u64; std::mem::size_of::<Config>() / 8]);
+        }
+    }
     let mut held: Vec<(*mut c_char, Vec<u8>, String)> = Vec::new();
     let mut held_sugs: Vec<*mut Suggestion> = Vec::new();
     let empty = Vec::new();
@@ -111,11 +122,45 @@ unsafe fn ffi_cycle_once(cfg: &Config, desc: &Value, env: &mut Env, mism: &mut V
             riti_context_finish_input_session(ctx);
         } else if let Some(c2) = ev.get("update") {
             let c2 = build_config(c2, env)?;
+            if let Some(r) = refctx.as_mut() {
+                r.update_engine(&c2);
+            }
             let p2 = Box::into_raw(Box::new(c2));
             riti_context_update_engine(ctx, p2);
             riti_config_free(p2);
+            if early {
+                for _ in 0..8 {
+                    junk.push(vec![0u64; std::mem::size_of::<Config>() / 8]);
+                }
+            }
         }
         let _ = riti_context_ongoing_input_session(ctx);
+        if let Some(r) = refctx.as_ref() {
+            // the same event on the Rust-API context
+            let mut want: Option<Suggestion> = None;
+            if let Some(k) = ev.get("key").and_then(|x| x.as_u64()) {
+                let m = ev.get("mod").and_then(|x| x.as_u64()).unwrap_or(0) as u8;
+                let sel = ev.get("sel").and_then(|x| x.as_u64()).unwrap_or(0) as u8;
+                want = Some(r.get_suggestion_for_key(k as u16, m, sel));
+            } else if let Some(c) = ev.get("backspace").and_then(|x| x.as_bool()) {
+                want = Some(r.backspace_event(c));
+            } else if let Some(i) = ev.get("commit").and_then(|x| x.as_u64()) {
+                r.candidate_committed(i as usize);
+            } else if ev.get("finish").is_some() {
+                r.finish_input_session();
+            }
+            if let (Some(w), false) = (want, sug.is_null()) {
+                let got: &Suggestion = &*sug;
+                let same = w.is_lonely() == got.is_lonely()
+                    && (if w.is_lonely() { w.get_lonely_suggestion() == got.get_lonely_suggestion() && w.get_pre_edit_text(0) == got.get_pre_edit_text(0) }
+                        else { w.get_suggestions() == got.get_suggestions() && w.previously_selected_index() == got.previously_selected_index()
+                               && w.get_auxiliary_text() == got.get_auxiliary_text()
+                               && (0..w.len()).all(|i| w.get_pre_edit_text(i) == got.get_pre_edit_text(i)) });
+                if !same {
+                    mism.push(format!("event {}: the context made through the C interface returns {:?}, a Rust-API context with the same configuration and history returns {:?}", n, got, w));
+                }
+            }
+        }
         if sug.is_null() {
             continue;
         }
@@ -166,7 +211,10 @@ unsafe fn ffi_cycle_once(cfg: &Config, desc: &Value, env: &mut Env, mism: &mut V
         }
     }
     riti_context_free(ctx);
-    riti_config_free(cfgp);
+    if !early {
+        riti_config_free(cfgp);
+    }
+    drop(junk);
     // strings and suggestions outlive the context they came from
     for g in held.iter() {
         check_cstr(g, mism);
